@@ -1,15 +1,15 @@
 SPECIFICATION Spec
 CONSTANTS
-  Ctx = {c1, c2}
-  NLanes = 2
+  Ctx = {c1, c2, c3}
+  NLanes = 3
   B = 4
   P = 1
-  SegLens = {0, 1, 3, 4, 5}
-  MaxTotal = 9
+  SegLens = {1, 4}
+  MaxTotal = 5
   NoCtx = NoCtx
   SbThreshold = 2
   TrackStream = FALSE
+SYMMETRY CtxSym
 CONSTRAINT Bounded
-INVARIANTS LanePartition OwnersAreHeld ReturnedNotProcessing FlushNullLeavesEmpty NeverFull ReturnedState
-PROPERTIES FlushNullIffEmpty
+INVARIANTS InOrder CompleteIsWhole TotalIsSum PartialLenOk LanePartition OwnersAreHeld ReturnedNotProcessing FlushNullLeavesEmpty NeverFull ReturnedState
 CHECK_DEADLOCK FALSE
